@@ -107,6 +107,9 @@ pub struct Profile {
     pub home_creates: bool,
     /// fraction (of 4) of replicated histories whose replicas have skewed clocks
     pub skewed_quarters: u64,
+    /// with 3 replicas, the last one takes no part until it joins by refresh from a random replica at
+    /// a random point of the history (a late joiner), then takes part normally
+    pub late_joiner: bool,
 }
 
 fn pick_obj(rng: &mut Rng, v: &[Obj]) -> Obj {
@@ -121,7 +124,7 @@ fn any_target(rng: &mut Rng, pop: &Pop) -> Uuid {
     }
 }
 
-pub fn gen_op(rng: &mut Rng, n_rep: usize, p: &Profile, created: &std::collections::BTreeSet<Obj>) -> Op {
+pub fn gen_op(rng: &mut Rng, n_rep: usize, n_home: usize, p: &Profile, created: &std::collections::BTreeSet<Obj>) -> Op {
     // Dynamic groups other than the built-in ones only ever come from the server's own migrations,
     // identically on every replica; creating new ones on one replica and replicating them is not a
     // supported operation, so harness dyngroups exist in single-replica histories only.
@@ -157,7 +160,7 @@ pub fn gen_op(rng: &mut Rng, n_rep: usize, p: &Profile, created: &std::collectio
             0 => {
                 let obj = pick_obj(rng, &pop.all());
                 if p.long_gaps_when_replicated && created.contains(&obj) { continue; }
-                let r = if p.home_creates { obj.1 as usize % n_rep } else { r };
+                let r = if p.home_creates { obj.1 as usize % n_home.max(1) } else { r };
                 Op::Create { r, obj, name: nm(rng), bad_spn: false }
             }
             1 if p.home_creates && n_rep > 1 => continue,
@@ -315,8 +318,18 @@ pub fn run_histories_ext(run: &mut Run, args: &Args, prop_salt: u64, histories: 
                     for i in 0..nrep {
                         snaps.push(mon::schema_snap(w.qs(i)).await);
                     }
-                    for _ in 0..nops {
-                        let op = gen_op(&mut rng, nrep, prof, &w.created);
+                    let late = prof.late_joiner && nrep == 3;
+                    let join_at = if late { rng.range(nops as u64 / 4, 3 * nops as u64 / 4) as usize } else { usize::MAX };
+                    let mut active = if late { nrep - 1 } else { nrep };
+                    let n_home = active;
+                    for i in 0..nops {
+                        let op = if i == join_at {
+                            active = nrep;
+                            acc.count("late_joiner_refreshed");
+                            Op::Refresh { from: rng.usize(nrep - 1), to: nrep - 1 }
+                        } else {
+                            gen_op(&mut rng, active, n_home, prof, &w.created)
+                        };
                         let schema_touch = matches!(op, Op::SchemaAttr { .. } | Op::SchemaClass { .. } | Op::Repl { .. } | Op::Refresh { .. } | Op::Restart { .. } | Op::DomainRename { .. });
                         let rec = w.apply(op).await;
                         let r = rec.op.target();
